@@ -25,7 +25,9 @@ R = Rules(
         "a 4.04 error or the documented fallback, and the escape sets of that function and of _expand_upa are {KeyError} and "
         "{BadOption}; interfaces.Resource._render_to_pipe adds one final response per normal path, the outcome of self.render; "
         "the token manager's event handler stamps token and response address before sending and stays registered exactly "
-        "while events are not final; Pipe discards events after its end, removes declining handlers and ends without "
+        "while events are not final, and process_request keeps at most one live request per (token, remote) and keeps it "
+        "tracked (an overridden request is found and stopped before its successor is stored under the key, because the "
+        "overridden pipe's end-of-interest hook removes by key; obligations shared with C08.e); Pipe discards events after its end, removes declining handlers and ends without "
         "interest; ConstructionRenderableError renders (self.code, self.message) and every subclass binds the code its name "
         "denotes in the RFC registries embedded here; the No-Response condition of send_message has the truth table of bit "
         "(class-1).  Paper step: with these premises each request's pipe sees exactly one event with is_last=True on every "
@@ -2047,6 +2049,35 @@ def l_shared(ctx):
     c17.c(ctx)
 
 
+@R.clause("C09.n", "at most one request is live per (token, remote), and the live one is tracked: a request overriding the same (token, remote) finds the old entry and stops it before the new (pipe, stopper) is stored under that key, the stored pipe is the one rendered, every stored request is rendered, and the entry leaves when interest ends (shared with C08.e / C18.g)")
+def n_shared(ctx):
+    """'Exactly one final response carrying the request's token': on the wire a response is attributed to a request
+    by (token, remote) alone, so the clause can only hold if at most one server-side pipe per (token, remote) is able
+    to send at any time.  process_request maintains that with incoming_requests: the table holds the live pipe of
+    every key, and a request arriving on a key that is still occupied (token re-use after giving up, a renewed
+    observation) calls the old entry's stopper -- which ends the old pipe, cancels its render task (C08.e) and, through
+    the pipe's end-of-interest hook, deletes the entry *by key* -- and only then stores its own entry.  Both halves are
+    needed, and they are two sites that keep one invariant ("whatever the overridden pipe's end removes is the
+    overridden pipe's own entry"): the hook removes by key, therefore the stopper has to have run while the key still
+    denotes the old entry (or no entry).  An independently written breaking change popped the old entry up front but
+    called its stopper after the new entry was stored: the old pipe's hook then deleted the new entry, the new request
+    ran untracked, a third request on the token neither found nor stopped it, and the peer got two final responses on
+    one token (the abandoned request's outcome carrying the newest request's token) while the abandoned handler ran on.
+    The same untracked request is invisible to dispatch_error (C09.k) and to shutdown.
+
+    That condition is a necessary condition of C09 and it is the process_request part of C08.e word for word (key of
+    the insertion, freshness of the stored pipe, stopper of the stored pipe, presence test and stopper call on every
+    path to the insertion -- presence known through `in`, `.get`/`.pop(k, None)` + None test or a KeyError handler --,
+    rendering of the stored pipe after the insertion on every path, removal on interest end), decided there by value
+    flow (kit Flow.origins / entry_read), not by statement shape.  It is run here under this property's id rather
+    than restated: one statement of the invariant, so that a maintainer's edit is judged the same way by C08, C09
+    and C18.  What the shared rule does not accept although it would keep the invariant: stopping the old request
+    after the insertion together with an identity-guarded removal in the hook (`if self.incoming_requests.get(key)
+    is entry`) -- it reports the late stop; today's hook removes by key, for which the order is necessary."""
+    from . import c08
+    c08._e_process_request(ctx)
+
+
 class _NoEval(Exception):
     pass
 
@@ -2279,6 +2310,21 @@ R.seed("C09.k", "aiocoap/tokenmanager.py", "        for (_, _r), (_, stopper) in
 
 R.seed("C09.l", F_RES, "        except KeyError:\n            raise error.NotFound()\n        else:\n            # FIXME consider carefully whether this switching-around is good.\n            # It probably is.\n            request.request = subrequest\n            return await child.render_to_pipe(request)", "            request.request = subrequest\n            return await child.render_to_pipe(request)\n        except KeyError:\n            raise error.NotFound()", "a KeyError raised by a handler is answered 4.04")
 R.seed("C09.m", "aiocoap/messagemanager.py", "                1 << message.code.class_ - 1\n", "                (1 << message.code.class_) - 1\n", "No-Response=2 also suppresses 4.xx and 5.xx")
+
+# C09.n: one live, tracked request per (token, remote)
+R.seed("C09.n", F_TM, "            (pipe, stop) = self.incoming_requests.pop(key)\n            stop()\n", "            (pipe, stop) = self.incoming_requests.pop(key)\n",
+       "the superseded request is forgotten but keeps running: two final responses on one token")
+R.seed("C09.n", F_TM, "            (pipe, stop) = self.incoming_requests.pop(key)\n            stop()\n", "            (pipe, stop) = self.incoming_requests.pop(key)\n            self.loop.call_soon(stop)\n",
+       "the superseded request is stopped only after its successor is registered: its end-of-interest hook deletes the successor's entry by key, the successor runs untracked")
+R.seed("C09.n", F_TM, "        if key in self.incoming_requests:\n            # This is either", "        if False:\n            # This is either",
+       "a request on an occupied (token, remote) is stored over the old entry without stopping it")
+R.seed("C09.n", F_TM, "        self.incoming_requests[key] = (pipe, stop)\n", "        self.incoming_requests[(request.token,)] = (pipe, stop)\n",
+       "stored under another key than the one looked up: the override never finds the live request")
+R.seed("C09.n", F_TM, "        self.incoming_requests[key] = (pipe, stop)\n", "        self.incoming_requests[key] = (Pipe(request, self.log), stop)\n",
+       "the tracked pipe is not the one that is rendered")
+R.seed("C09.n", F_TM, "        self.context.render_to_pipe(pipe)\n", "        if request.opt.observe is None:\n            self.context.render_to_pipe(pipe)\n",
+       "a tracked request that is never rendered gets no response at all")
+R.seed("C09.n", F_TM, "        pipe.on_interest_end(on_end)\n", "", "entries of finished requests stay: a later request on the token 'overrides' a dead pipe, and the table no longer tells live requests from finished ones")
 
 # seeds for the path-based generalisations: each one breaks the property through a spelling the clauses did not know
 # before (partial objects, nested helpers, tables, aliases), so that accepting those spellings is shown not to blind them
